@@ -29,6 +29,7 @@ func Register() {
 	tune := func(c *engine.EngineConfig, r *engine.Rand) {
 		c.OpsPerBlock = 2 + 6*r.Float()
 	}
+	groups := [][]string{{"service", "oraclefeed", "random"}, {"service", "oraclefeed"}, {"farm", "amm"}, {"htlc"}, {"token"}, {"nft", "mt", "record"}}
 	engine.RegisterProfile(&engine.Profile{Name: "mixed-replicas",
 		Tune: func(c *engine.EngineConfig, r *engine.Rand) {
 			tune(c, r)
@@ -41,17 +42,18 @@ func Register() {
 		// the service / feed chain of events (price feed, bindings priced through it) is long;
 		// give it a larger share of the operations here
 		Weights: map[string]int{"service": 30, "oraclefeed": 30, "random": 20},
+		Groups:  groups,
 		Mods:    mixed(func() engine.Module { return NewReplicas() })})
-	engine.RegisterProfile(&engine.Profile{Name: "mixed-export", Tune: tune,
+	engine.RegisterProfile(&engine.Profile{Name: "mixed-export", Tune: tune, Groups: groups,
 		Mods: mixed(func() engine.Module { return NewExporter() })})
-	engine.RegisterProfile(&engine.Profile{Name: "mixed-lab", Tune: tune,
+	engine.RegisterProfile(&engine.Profile{Name: "mixed-lab", Tune: tune, Groups: groups,
 		Mods: mixed(func() engine.Module { return NewParamLab() })})
 	engine.RegisterProfile(&engine.Profile{Name: "mixed", Tune: func(c *engine.EngineConfig, r *engine.Rand) {
 		tune(c, r)
 		if c.Blocks < 70 {
 			c.Blocks += 40
 		}
-	}, Mods: mixed()})
+	}, Groups: groups, Mods: mixed()})
 	engine.RegisterProperty(&engine.Property{
 		ID: "C13", Profile: "mixed",
 		NonTrivial: func(c map[string]int64) bool {
